@@ -21,19 +21,19 @@ package service
 //@   ensures[C18.stringparam_missing_optional] !has(m, p) && !required ==> result2 == nil && !result1 && result0 == ""
 //@   ensures[C18.stringparam_string]  has(m, p) && is(m[p], string) ==> result2 == nil && result1 && result0 == m[p].(string)
 //@   ensures[C18.stringparam_illtyped] has(m, p) && !is(m[p], string) && !is(m[p], []interface{}) ==> result2 != nil
-//@   ghost-ensures result2 != nil ==> failed
+//@   ghost-ensures failed == (old(failed) || result2 != nil)
 //@   also-modifies failed
 //@ func getMapParam
 //@   ensures[C18.mapparam_missing_required] !has(m, prop) && required ==> result2 != nil
 //@   ensures[C18.mapparam_map]      has(m, prop) && is(m[prop], map[string]interface{}) ==> result2 == nil && result1 && result0 == m[prop].(map[string]interface{})
 //@   ensures[C18.mapparam_illtyped] has(m, prop) && !is(m[prop], map[string]interface{}) ==> result2 != nil
-//@   ghost-ensures result2 != nil ==> failed
+//@   ghost-ensures failed == (old(failed) || result2 != nil)
 //@   also-modifies failed
 //@ func getBoolParam
 //@   ensures[C18.boolparam_missing_required] !has(m, prop) && required ==> result2 != nil
 //@   ensures[C18.boolparam_bool]     has(m, prop) && is(m[prop], bool) ==> result2 == nil && result1 && result0 == m[prop].(bool)
 //@   ensures[C18.boolparam_illtyped] has(m, prop) && !is(m[prop], bool) && !is(m[prop], string) ==> result2 != nil
-//@   ghost-ensures result2 != nil ==> failed
+//@   ghost-ensures failed == (old(failed) || result2 != nil)
 //@   also-modifies failed
 
 // ghost: some parameter getter or System call made on behalf of this request failed
@@ -43,10 +43,10 @@ package service
 //@   ghost-ensures protested
 //@   also-modifies protested
 //@ func GetHTTPRequest
-//@   ghost-ensures result1 != nil ==> failed
+//@   ghost-ensures failed == (old(failed) || result1 != nil)
 //@   also-modifies failed
 //@ func (*Service).ProcessRequest
-//@   ghost-ensures result1 != nil && !is(result1, *Redirect) ==> failed
+//@   ghost-ensures failed == (old(failed) || (result1 != nil && !is(result1, *Redirect)))
 //@   also-modifies failed
 //@ func (*HTTPService).ServeHTTP
 //@   ensures[C18.http_error_is_400] failed ==> protested
